@@ -76,3 +76,13 @@ package blockstore
 //@   ensures notfound [C07]: !old(b.closed) && iderr == nil && mhtype(key) != 0 && ferr == index.ErrNotFound ==> err != nil && result0 == -1
 //@   ensures closed_err [C04]: old(b.closed) && iderr == nil && mhtype(key) != 0 ==> err == errClosed
 //@   ensures released [C08]: held(b.mu) == 0
+
+//@ func OpenReadWriteFile
+//@   let rverr := call[store.ResumableVersion#0]
+//@   ensures header_layout [C05]: err == nil ==> result0.header.DataOffset == wrap_u64(51 + result0.opts.DataPadding) && result0.header.DataSize == 0 && result0.header.IndexOffset == wrap_u64(wrap_u64(51 + result0.opts.DataPadding) + result0.opts.IndexPadding)
+//@   ensures payload_origin [C01,C05]: err == nil ==> result0.dataWriter != nil && wbase(result0.dataWriter) == ite(result0.opts.WriteAsCarV1, 0, wrap_s64(result0.header.DataOffset))
+//@   ensures wiring [C04,C07]: err == nil ==> result0.f == f && result0.idx != nil && ref(result0.ronly.idx) == ref(result0.idx) && !result0.finalized && !result0.ronly.closed
+//@   call[store.Resume#0] assert args [C12]: ref(arg0) == ref(f) && ref(arg1) == ref(rwbs.ronly.backing) && ref(arg2) == ref(rwbs.dataWriter) && ref(arg3) == ref(rwbs.idx) && arg4 == roots && arg5 == rwbs.header.DataOffset && arg6 == rwbs.opts.WriteAsCarV1 && arg7 == rwbs.opts.MaxAllowedHeaderSize && arg8 == rwbs.opts.ZeroLengthSectionAsEOF
+//@   call[store.Resume#0] assert version_checked [C12]: rverr == nil
+//@   call[store.ResumableVersion#0] assert args [C12]: ref(arg0) == ref(f) && arg1 == rwbs.opts.WriteAsCarV1
+//@   call[ReadWrite.initWithRoots#0] assert args [C01,C05]: arg1 == !rwbs.opts.WriteAsCarV1 && arg2 == roots
